@@ -42,6 +42,17 @@ PROPS = {
                      "values; an observer connection holds a fetch-all and issues get after every operation, so the daemon's own element set is compared "
                      "with the reference map after every step. Non-trivial = at least one mutation refused for ownership/kind/existence and at least one "
                      "re-add of a path after its removal or its owner's disconnect; distinct = scenario hash."),
+    "C15": scen("c15", ["default", "default", "default", "small"], level="fault_enumeration",
+                quick=dict(cases=1, size=22), thorough=dict(cases=12, size=40, budget_s=3400),
+                rule="rapidcheck-generated scenarios (raw + WebSocket + optional further peers; add/remove/change/fetch/unfetch/get/set/call/reply/config/info/"
+                     "authenticate with a credential file/malformed requests/batches/invalid JSON/timer expiry/connects/ends by EOF, hang-up and reset, ended by "
+                     "close-all or SIGTERM). For every scenario one clean execution counts the allocations N made after the idle baseline; then N executions "
+                     "fail allocation k=0..N-1 in turn (complete single-fault enumeration per scenario), plus two double-fault executions; in the small variant the "
+                     "64 KB heap cap additionally refuses by itself. Oracles per execution: no sanitizer report or crash, never more responses with an id than "
+                     "requests carrying it, a fresh connection is served afterwards (retried if the fault hit the probe itself), after close-all accounted heap, "
+                     "live blocks, peers, descriptors and timers are back at the baseline and nothing is left at exit. Failures are keyed by the failing "
+                     "allocation's call chain (nm symbol table of the test binary). evaluations counts executions; distinct non-trivial = scenarios with >=20 "
+                     "allocations after the baseline (distinct scenario hashes)."),
     "C16": scen("c16", ["default"],
                 quick=dict(cases=1200, size=60), thorough=dict(cases=40000, size=100, budget_s=3000),
                 rule="rapidcheck-generated families of 4-8 related paths (prefixes/suffixes/infixes/case variants of each other, non-ASCII, empty) and rule "
